@@ -386,6 +386,17 @@ func c02UploadOK(c *Ctx, m *Module) {
 	fb := newFormulaBuilder()
 	fb.namer = c02Namer
 	fb.names[fn.Params[1]] = "start"
+	// "X" is the report's X: a value compared before it is stored into the report's X field is
+	// the same number (a second draw would be a different value and keeps its own name)
+	for _, in := range instrsOf(fn) {
+		if st, ok := in.(*ssa.Store); ok {
+			if fa, ok := st.Addr.(*ssa.FieldAddr); ok && fieldName(fa) == "X" && namedType(fa.X.Type()) == "internal/telemetry.Report" {
+				if _, _, isLoad := fieldLoad(st.Val); !isLoad {
+					fb.names[st.Val] = "X"
+				}
+			}
+		}
+	}
 	got := fb.formula(flag)
 	want := bAnd{[]BExpr{
 		bStr{"mode", "on"},
